@@ -117,7 +117,7 @@ ADDENDA = {
  "C04": "Also: the package leg (values inside PARAMS/ROW behind a decoded format, further rows through the same package object), arbitrary instants of the day, values printed between the steps (what package logging does) and sent twice. Text pointers up to 255 bytes, concurrent round trips under the race detector.",
  "C05": "Also: decoded instants compared at 1 ms with the exact tick value, a sweep of tick values on the wire, and sequences of 2..6 conversions whose earlier results must stay right after the later ones (no shared storage). Values written through the field layer of a PARAMS package compared with the reference bytes; local time zones with DST; concurrent conversions under the race detector.",
  "C06": "Also: EED messages with a trailing newline, every Encrypt id 1..40 in the login record. The login record printed before it is written and written twice.",
- "C07": "Also: a used channel (completed response before), the environment hook count over re-parses, and a request completing between the truncated attempt and the complete bytes. Packages of 1 KB..300 KB (3 MB in the thorough tier) arriving in hundreds of packets, checked after every packet.",
+ "C07": "Also: a used channel (completed response before), the environment hook count over re-parses, and a request completing between the truncated attempt and the complete bytes. Packages of 1 KB..300 KB (1 MB in the thorough tier) arriving in hundreds of packets, checked after every packet.",
  "C08": "Also: one all-zero capability mask type, whitespace keys, packet sizes >= 32768, nonces at the OAEP capacity, package queues of size 0/1/2/5 (the reader has to wait for Login). A further capability type with an empty or non-empty mask; per-server capabilities of an earlier connection stay untouched.",
  "C09": "Also: pairwise distinct ciphertexts for equal secrets, 2..8 logins running concurrently, and 2..3 logins over ONE connection (retry after a rejected login): session key and ciphertexts fresh per login. 20..1030 logins in one process (10010 in the thorough tier): no session key and no ciphertext is ever sent twice; remote names longer than 255 bytes.",
  "C10": "Also: packet size lowered mid-response, hostile key parameters in the login negotiation, formats with BLOB columns followed by blob rows whose data sets announce up to 2^26 bytes (allocation measured for every case). A packet size announced while a message is being assembled; responses of up to 500000 packages (3 million in the thorough tier) drained three ways with the growth of goroutine stacks bounded; arbitrary capability types and masks in the login responses.",
